@@ -62,7 +62,7 @@ CHECKS = {
          "Decides validity of the templates from which every output is assembled: all instantiations parse and type-check, labels marked in the dry pass equal those jumped to in the real pass, rule ids never need the type parameter, the rule constant type has exact thresholds, imports are de-duplicated, and the result is printed with gofmt's configuration. One recorded finding (predicate ending in a line comment).",
          "DESIGN.md §4 C08",
          "Trusts go/parser, go/types, go/printer; excludes invalid user Go and reserved identifiers as the property does."),
- "C13": ("E2 guardedness flags (every position++ preceded on its path by a successful test excluding endSymbol) on the model suite under default/-noast/-inline; go/ssa dominance rules on matchDot/matchString; path simulation of reset's sentinel; index-site and no-string-indexing rules",
+ "C13": ("E2 guardedness flags (every position++ preceded on its path by a successful test excluding endSymbol) on the model suite under default/-noast/-inline; go/ssa dominance rules on matchDot/matchString; path simulation of reset's sentinel, backed by small-scope evaluation of Init/reset on inputs with NUL, astral runes and adjacent invalid bytes (R-buffer-semantics); evaluation of matchDot/matchString at every position incl. the end symbol; index-site and no-string-indexing rules",
          "Decides the inductive in-bounds invariant of position (sentinel re-established by reset and outside the rune range; advances only after a guarded test; otherwise snapshots; buffer indexed only at position/the literal cursor; offsets index runes). -switch configurations are judged by C02.",
          "DESIGN.md §4 C13",
          "Children keep the invariant (induction); termination/stack depth not decided."),
@@ -70,7 +70,7 @@ CHECKS = {
          "Decides the soundness conditions of both optimisations: a switched choice produces exactly the verdicts, consumed prefixes, tokens and successful attempts of the ordered choice for every hop through which the skip-first-test flag travels (terminals and opaque children with declared FIRST sets), choices with nullable alternatives stay ordered, FIRST sets are never too small, labels agree between the dry and the real pass, inlined uses equal calls and never reach a nil entry. Necessary conditions which, with C01, are sufficient for well-formed grammars; no two parsers are run.",
          "DESIGN.md §4 C02",
          "Assumptions of C01; opaque children with a declared FIRST set fail outside it; set arithmetic is modelled mathematically (setmodel.go), not taken from package set."),
- "C15": ("abstract interpretation of the generator's front half and diagnostics (builder API, first pass, link, reachability count, left-recursion walk, emission loop) on model grammars with opaque sub-expressions, compared with a PEG oracle for undefined/unused/left-recursive rules; path-fact rule on Compile's SSA for -strict",
+ "C15": ("abstract interpretation of the generator's front half and diagnostics (builder API, first pass, link, reachability count, left-recursion walk, emission loop) on model grammars with opaque sub-expressions, (the diagnostics being what the tree's error field holds when the evaluation of Compile ends) compared with a PEG oracle for undefined/unused/left-recursive rules on hand-written and seeded random grammars whose leaves include predicates, actions and empty literals; evaluation of the -strict tail for Strict x 0/1/2 warnings; path-fact rule on Compile's SSA for -strict",
          "Decides that the warnings the generator's source produces on a catalogue covering every operator on the left edge, nullable prefixes, indirect/unreachable cycles, stubs, unused chains and duplicate definitions are exactly the oracle's sets, that duplicates are diagnosed rather than crashing, and that Strict turns any warning into a returned error before anything is written. Exactness beyond the catalogue follows from the walkers being structural (one case per operator).",
          "DESIGN.md §4 C15",
          "Trusts the interpreter and the oracle in c15.go; the CLI half is C18; builder calls as in peg.peg (C10)."),
